@@ -552,7 +552,7 @@ def mutate(cfg, mut):
     out = copy.deepcopy(cfg)
     kind = mut["kind"]
     path = mut["path"]
-    if kind == "foreign":
+    if kind in ("foreign", "append"):
         cur = out
         for i, s in enumerate(path):
             if isinstance(cur, dict) and s not in cur:
@@ -594,6 +594,9 @@ def mutations_of(rng, fields, cfg, modname, full):
                 for name, variant in typo_names(rng, sibling_names(fields, cfg, modname, path, extra), full):
                     muts.append({"kind": "foreign", "path": path, "key": name, "value": copy.deepcopy(rng.choice([1, "w", [1], None, 2.5])),
                                  "cls": extra, "variant": variant})
+            # keys ending in "+" (append keys): `apply_appends` consumes `k+` ONLY for a list-typed argument `k`; every other key ending in "+"
+            # - an unrelated name, a misspelt list key, "+" on an argument that is not a list - stays a foreign key
+            muts.extend(plus_mutations(rng, fields, cfg, modname, path, extra, full))
         elif kind == "required":
             muts.append({"kind": "remove", "path": path})
             muts.append({"kind": "null", "path": path})
@@ -611,6 +614,68 @@ def mutations_of(rng, fields, cfg, modname, full):
     # a mutation must not change which subcommands are selected on the way to its position (implicit selection by section):
     # otherwise it is a different configuration, not a single fault
     return [m for m in muts if sections_still_selected(fields, mutate(cfg, m), modname, m["path"][:-1] if m.get("cls") == "unselected" else m["path"])]
+
+
+PLUS_VALUES = [1, "w", [1], [2, 3], 2.5, None, {"q": 1}]
+
+
+def appendable_node(node):
+    """list-typed argument whose elements are plain values (what the model's `appendable` covers)"""
+    return (node["k"] == "leaf" and node["ty"] == "listInt") or (node["k"] == "list" and node["item"]["k"] == "leaf")
+
+
+def list_node(node):
+    return (node["k"] == "leaf" and node["ty"] == "listInt") or node["k"] == "list"
+
+
+def plus_mutations(rng, fields, cfg, modname, path, cls, full):
+    out = []
+
+    def foreign(key, variant, value=None):
+        out.append({"kind": "foreign", "path": path, "key": key, "value": copy.deepcopy(rng.choice(PLUS_VALUES) if value is None else value),
+                    "cls": cls, "variant": variant})
+
+    if full or rng.random() < 0.5:
+        foreign(FOREIGN + "+", "plus-foreign")
+    if cls in ("classdict", "classdict-cponly"):
+        if full or rng.random() < 0.3:
+            foreign(rng.choice(["class_path+", "dict_kwargs+", "init_args+"]), "plus-nonlist", rng.choice([1, "w", [1]]))
+        return out
+    if cls not in ("normal", "bareinit"):
+        return out
+    try:
+        lf = level_fields(fields, cfg, modname, path)
+    except Exception:  # noqa: BLE001
+        return out
+    if lf is None:
+        return out
+    names = sibling_names(fields, cfg, modname, path, cls)
+    lists = [n for n, nd in lf if list_node(nd)]
+    nonlist = [n for n, nd in lf if not list_node(nd)]
+    s = sub_of(lf)
+    if s:
+        nonlist += [c for c, _ in s[1]["choices"]]
+    try:
+        here = get_at(cfg, path)
+    except Exception:  # noqa: BLE001
+        here = None
+    pick = nonlist if full else (rng.sample(nonlist, min(2, len(nonlist))) if nonlist else [])
+    for n in pick:
+        if n + "+" not in names:
+            foreign(n + "+", "plus-nonlist")
+    for t, _ in typo_names(rng, lists, full):
+        if t not in names and t + "+" not in names:
+            foreign(t + "+", "plus-typo", rng.choice([[1], 3, [2, 3]]))
+    if isinstance(here, dict):
+        for n, nd in lf:
+            # the legitimate append: accepted (the required check reads the base key: only when it is present or not required)
+            if appendable_node(nd) and n + "+" not in here and (n in here or not nd["req"]) and (full or rng.random() < 0.5):
+                ity = "int" if nd["k"] == "leaf" else nd["item"]["ty"]
+                if ity in ("optInt", "listInt"):
+                    continue
+                item = leaf_value(rng, ity)
+                out.append({"kind": "append", "path": path, "key": n + "+", "value": rng.choice([item, [item], [item, item]]), "cls": cls, "variant": "append"})
+    return out
 
 
 def sibling_names(fields, cfg, modname, path, cls):
@@ -807,7 +872,7 @@ def render_argv(rng, fields, kvs, prefix=""):
             cls_params = None
             if isinstance(v, dict) and isinstance(v.get("class_path"), str):
                 cls_params = dict((c, [n for n, _ in f]) for c, f in node["classes"]).get(v["class_path"].rsplit(".", 1)[-1])
-            known_only = cls_params is not None and isinstance(v.get("init_args", {}), dict) and all(p in cls_params for p in v.get("init_args", {}))
+            known_only = cls_params is not None and isinstance(v.get("init_args", {}), dict) and all(p in cls_params or p.endswith("+") for p in v.get("init_args", {}))
             # (a foreign init_args key given as `--m.init_args.epoch=1` would be an abbreviation for the per-class parser: whole JSON then)
             if isinstance(v, dict) and set(v) <= {"class_path", "init_args"} and isinstance(v.get("class_path"), str) and known_only and rng.random() < 0.6:
                 args.append("%s=%s" % (opt, v["class_path"]))
@@ -984,6 +1049,8 @@ def delimited(msg, text):
 
 def mentions(msg, segs):
     """does the message name the dotted key `segs` (plain, or in the group / subcommand two-part form)?"""
+    if segs and isinstance(segs[-1], str) and segs[-1].endswith("+") and len(segs[-1]) > 1 and mentions(msg, list(segs[:-1]) + [segs[-1][:-1]]):
+        return True           # `calbacks+` named as `calbacks`: the same key
     dotted = ".".join(segs)
     if delimited(msg, dotted) or re.search(r"(?<![A-Za-z0-9_])" + re.escape(dotted) + r"\.", msg):
         return True
@@ -1089,6 +1156,10 @@ def oracle_judge(mut, res):
     if mut is None:
         if res[0] != "ok":
             return "a valid configuration is rejected: %s" % (res[1:3],)
+        return None
+    if kind == "append":
+        if res[0] != "ok":
+            return "a legitimate append key (list-typed argument) is rejected: %s" % (res[1:3],)
         return None
     if res[0] == "ok":
         return "accepted"
@@ -1457,7 +1528,10 @@ def run(ctx: Ctx):
             if not ctx.thorough and fixed_muts is None and len(muts) > 44:
                 typos = [m for m in muts if m.get("variant")]
                 rest = [m for m in muts if not m.get("variant")]
-                typos = ctx.rng.sample(typos, min(len(typos), 20))
+                plus = [m for m in typos if str(m.get("variant")).startswith("plus") or m.get("variant") == "append"]
+                other = [m for m in typos if m not in plus]
+                plus = ctx.rng.sample(plus, min(len(plus), 8))
+                typos = plus + ctx.rng.sample(other, min(len(other), 20 - len(plus)))
                 muts = typos + ctx.rng.sample(rest, min(len(rest), 44 - len(typos)))
             ctx.hist("mutations_per_case", min(len(muts) // 10 * 10, 100))
             batch.append((case, muts, [case.cfg] + [mutate(case.cfg, m) for m in muts]))
